@@ -20,6 +20,7 @@ import (
 	"fmt"
 	"io"
 	"math/rand"
+	"net/http"
 	"strings"
 	"sync"
 	"sync/atomic"
@@ -643,4 +644,112 @@ func completionRace(r *vh.Run, i int) {
 	if rs.Status != 200 || string(rs.Body) != string(x) {
 		r.Violation("acknowledged-upload-removed-by-collection", fmt.Sprintf("directory store: the completing PUT of a session upload was answered 201 while a collection stood right before removing an older, expired copy of the same blob; afterwards GET of the blob answers %d - an upload acknowledged a moment ago, far younger than the grace period (1 h), is gone", rs.Status), wit)
 	}
+}
+
+// tagOrderTrial (C05): one image under three tags, two of them deleted in every order (what is left in index.json -
+// an untagged entry before or after the entry of the remaining tag - depends on that order), and a tagged artifact of
+// the image whose tag is deleted.  Collection with untagged manifests enabled and no grace period, on all three
+// stores and again after a reopen: the image still pulls completely under the remaining tag, and the artifact - a
+// referrer of a retained subject - is still served and listed.
+func tagOrderTrial(r *vh.Run, i int) {
+	kind := []vh.StoreKind{vh.Mem, vh.Dir, vh.MemDir}[i%3]
+	orders := [][2]string{{"t1", "t2"}, {"t2", "t1"}, {"t1", "t3"}, {"t3", "t1"}, {"t2", "t3"}, {"t3", "t2"}}
+	ord := orders[(i/3)%6]
+	root := ""
+	if kind != vh.Mem {
+		root = r.TempDir("tago")
+		defer vh.RemoveAll(root)
+	}
+	pol := vh.Policy{Untagged: true, Dangling: false, WithSubj: true, Grace: -1}
+	srv := vh.New(vh.Conf(kind, root, pol))
+	defer func() { _ = srv.Close() }()
+	wit := map[string]any{"trial": i, "store": kind.String(), "tags_deleted_in_order": ord}
+	acc := map[string]string{"Accept": vh.AcceptAll}
+	cfg := &vh.Blob{Name: "cfg", B: []byte(fmt.Sprintf("tag order config %d", i))}
+	cfg.D = vh.DigestOf("sha256", cfg.B)
+	lay := &vh.Blob{Name: "lay", B: []byte(fmt.Sprintf("tag order layer %d", i))}
+	lay.D = vh.DigestOf("sha256", lay.B)
+	img := vh.MkImage("img", "sha256", vh.MTImage, cfg, vh.MTConfig, []vh.Descriptorish{{MT: vh.MTLayer, D: lay.D, Size: len(lay.B)}}, "", "", map[string]string{"n": fmt.Sprint(i)})
+	art := vh.MkImage("art", "sha256", vh.MTImage, cfg, vh.MTConfig, nil, img.D, "application/x.sig", map[string]string{"a": fmt.Sprint(i)})
+	for _, b := range []*vh.Blob{cfg, lay} {
+		vh.Do(srv, vh.Req{Method: "POST", URL: "/v2/t/blobs/uploads/?digest=" + b.D, Body: b.B})
+	}
+	// where the artifact's entry sits in index.json decides which entry a removal swaps into the freed place
+	artWhen := []string{"after the image", "before the image", "never"}[(i/18)%3]
+	wit["artifact_pushed"] = artWhen
+	ok := true
+	putArt := func() {
+		ok = ok && vh.Do(srv, vh.Req{Method: "PUT", URL: "/v2/t/manifests/sig", H: map[string]string{"Content-Type": art.MT}, Body: art.Raw}).Status == 201
+	}
+	if artWhen == "before the image" {
+		putArt()
+	}
+	for _, tg := range []string{"t1", "t2", "t3"} {
+		ok = ok && vh.Do(srv, vh.Req{Method: "PUT", URL: "/v2/t/manifests/" + tg, H: map[string]string{"Content-Type": img.MT}, Body: img.Raw}).Status == 201
+	}
+	if artWhen == "after the image" {
+		putArt()
+	}
+	for _, tg := range ord {
+		ok = ok && vh.Do(srv, vh.Req{Method: "DELETE", URL: "/v2/t/manifests/" + tg}).Status == 202
+	}
+	if artWhen != "never" {
+		ok = ok && vh.Do(srv, vh.Req{Method: "DELETE", URL: "/v2/t/manifests/sig"}).Status == 202
+	}
+	if !ok {
+		r.Inconclusive("tagOrderTrial: setup refused")
+		return
+	}
+	left := map[string]bool{"t1": true, "t2": true, "t3": true}
+	delete(left, ord[0])
+	delete(left, ord[1])
+	var keep string
+	for t := range left {
+		keep = t
+	}
+	check := func(h http.Handler, when string) bool {
+		g := vh.Do(h, vh.Req{Method: "GET", URL: "/v2/t/manifests/" + keep, H: acc})
+		if g.Status != 200 || string(g.Body) != string(img.Raw) {
+			r.Violation("tagged-image-incomplete:after-tag-deletes", fmt.Sprintf("%s store, %s: the image was pushed as t1 t2 t3, %s and %s were deleted; tag %s answers %d", kind, when, ord[0], ord[1], keep, g.Status), wit)
+			return false
+		}
+		for _, b := range []*vh.Blob{cfg, lay} {
+			if bs := vh.Do(h, vh.Req{Method: "GET", URL: "/v2/t/blobs/" + b.D}); bs.Status != 200 || string(bs.Body) != string(b.B) {
+				r.Violation("tagged-image-incomplete:after-tag-deletes", fmt.Sprintf("%s store, %s: %s of the image still tagged %s answers %d (tags %s, %s deleted)", kind, when, b.Name, keep, bs.Status, ord[0], ord[1]), wit)
+				return false
+			}
+		}
+		if artWhen == "never" {
+			return true
+		}
+		if a := vh.Do(h, vh.Req{Method: "GET", URL: "/v2/t/manifests/" + art.D, H: acc}); a.Status != 200 {
+			r.Violation("referrer-of-retained-subject-lost:tag-deleted", fmt.Sprintf("%s store, %s: the artifact of the tagged image was pushed under a tag, only the tag was deleted; GET by digest answers %d", kind, when, a.Status), wit)
+			return false
+		}
+		if l := vh.Do(h, vh.Req{Method: "GET", URL: "/v2/t/referrers/" + img.D}); l.Status != 200 || !strings.Contains(string(l.Body), art.D) {
+			r.Violation("referrer-of-retained-subject-lost:tag-deleted", fmt.Sprintf("%s store, %s: the artifact whose tag was deleted is no longer listed as referrer of the tagged image", kind, when), wit)
+			return false
+		}
+		return true
+	}
+	if !check(srv, "before any collection") {
+		return
+	}
+	_ = srv.VerifGC(context.Background(), "t")
+	if !check(srv, "after a collection") {
+		return
+	}
+	_ = srv.VerifGC(context.Background(), "t")
+	if !check(srv, "after a second collection") {
+		return
+	}
+	if kind == vh.Dir {
+		_ = srv.Close()
+		srv = vh.New(vh.Conf(kind, root, pol))
+		if !check(srv, "after Close and reopen") {
+			return
+		}
+	}
+	r.Count("tag_order_trials", 1)
+	r.Distinct("tag_order_cells", fmt.Sprint(kind, ord, artWhen))
 }
